@@ -52,6 +52,81 @@ type Case3 struct {
 	P0       [][]FS `json:"p0"`
 	MaxSteps int    `json:"max_steps"`
 	Trace    []Hook `json:"trace"`
+	// round 6: calls the SAME estimator object went through before the call of the case; InPlace: the case's data
+	// are written into the vectors of the last earlier call (same shape) instead of fresh vectors
+	Pre     []Pre3 `json:"pre,omitempty"`
+	InPlace bool   `json:"in_place,omitempty"`
+	PreErr  []bool `json:"pre_err,omitempty"` // observed: which earlier calls failed (error or panic)
+}
+
+type Pre3 struct {
+	Xs   [][]FS `json:"xs"`
+	HasG bool   `json:"has_g"`
+	G    []FS   `json:"g"`
+}
+
+// the earlier calls of the case on one estimator object, then the case's own call; returns its error.
+// set installs data vectors (SetData), est estimates with the given log-weights, reinstall: the estimator copies
+// the data in SetData, so after an in-place write SetData is called again with the same vectors.
+func (c *Case3) callSeq(rows func([][]FS) []ad.DenseFloat64Vector, set func([]ad.DenseFloat64Vector) error,
+	est func(ad.ConstVector) error, eod func([]ad.DenseFloat64Vector, ad.ConstVector) error, reinstall bool, gamma ad.ConstVector) error {
+	var prev []ad.DenseFloat64Vector
+	c.PreErr = nil
+	for i, p := range c.Pre {
+		prev = rows(p.Xs)
+		c.PreErr = append(c.PreErr, true)
+		var g ad.ConstVector
+		if p.HasG {
+			g = vec(ffs(p.G))
+		}
+		// an error (or panic) of an earlier call is part of the history
+		func() {
+			defer func() { recover() }()
+			var err error
+			if i%2 == 0 {
+				err = eod(prev, g)
+			} else if err = set(prev); err == nil {
+				err = est(g)
+			}
+			c.PreErr[i] = err != nil
+		}()
+	}
+	cur := rows(c.Xs)
+	if len(c.Pre) == 0 || (!c.InPlace && len(c.Pre)%2 == 0) {
+		return eod(cur, gamma)
+	}
+	same := c.InPlace && prev != nil && len(prev) == len(cur)
+	for i := 0; same && i < len(cur); i++ {
+		same = len(prev[i]) == len(cur[i])
+	}
+	if same {
+		for i := range cur {
+			copy(prev[i], cur[i])
+		}
+		if reinstall {
+			if err := set(prev); err != nil {
+				return err
+			}
+		}
+	} else if err := set(cur); err != nil {
+		return err
+	}
+	return est(gamma)
+}
+
+func rowsOf(xs [][]FS) []ad.DenseFloat64Vector {
+	r := make([]ad.DenseFloat64Vector, len(xs))
+	for i, x := range xs {
+		r[i] = ad.NewDenseFloat64Vector(ffs(x))
+	}
+	return r
+}
+func constVecs(vs []ad.DenseFloat64Vector) []ad.ConstVector {
+	r := make([]ad.ConstVector, len(vs))
+	for i, v := range vs {
+		r[i] = v
+	}
+	return r
 }
 
 func vecs(xs [][]FS) []ad.ConstVector {
@@ -116,7 +191,10 @@ func execute3(c *Case3) {
 		if err != nil {
 			Die("NewNormalEstimator: %v", err)
 		}
-		if err := e.EstimateOnData(vecs(c.Xs), gamma, pool); err != nil {
+		// the estimator keeps the slice of vectors by reference: in-place writes are seen without SetData
+		if err := c.callSeq(rowsOf, func(v []ad.DenseFloat64Vector) error { return e.SetData(constVecs(v), len(v)) },
+			func(g ad.ConstVector) error { return e.Estimate(g, pool) },
+			func(v []ad.DenseFloat64Vector, g ad.ConstVector) error { return e.EstimateOnData(constVecs(v), g, pool) }, false, gamma); err != nil {
 			c.Err = true
 			return
 		}
@@ -140,7 +218,9 @@ func execute3(c *Case3) {
 		if err != nil {
 			Die("NewScalarId: %v", err)
 		}
-		if err := e.EstimateOnData(vecs(c.Xs), gamma, pool); err != nil {
+		if err := c.callSeq(rowsOf, func(v []ad.DenseFloat64Vector) error { return e.SetData(constVecs(v), len(v)) },
+			func(g ad.ConstVector) error { return e.Estimate(g, pool) },
+			func(v []ad.DenseFloat64Vector, g ad.ConstVector) error { return e.EstimateOnData(constVecs(v), g, pool) }, true, gamma); err != nil {
 			c.Err = true
 			return
 		}
@@ -175,7 +255,9 @@ func execute3(c *Case3) {
 		if err != nil {
 			Die("NewScalarIid: %v", err)
 		}
-		if err := e.EstimateOnData(vecs(c.Xs), gamma, pool); err != nil {
+		if err := c.callSeq(rowsOf, func(v []ad.DenseFloat64Vector) error { return e.SetData(constVecs(v), len(v)) },
+			func(g ad.ConstVector) error { return e.Estimate(g, pool) },
+			func(v []ad.DenseFloat64Vector, g ad.ConstVector) error { return e.EstimateOnData(constVecs(v), g, pool) }, true, gamma); err != nil {
 			c.Err = true
 			return
 		}
@@ -205,7 +287,9 @@ func execute3(c *Case3) {
 		if err != nil {
 			Die("NewNegativeBinomialEstimator: %v", err)
 		}
-		if err := e.EstimateOnData(vec(ffs(c.Xs[0])), gamma, pool); err != nil {
+		if err := c.callSeq(rowsOf, func(v []ad.DenseFloat64Vector) error { return e.SetData(v[0], len(v[0])) },
+			func(g ad.ConstVector) error { return e.Estimate(g, pool) },
+			func(v []ad.DenseFloat64Vector, g ad.ConstVector) error { return e.EstimateOnData(v[0], g, pool) }, false, gamma); err != nil {
 			c.Err = true
 			return
 		}
